@@ -83,13 +83,13 @@ PROPS["C12"] = dict(
 )
 
 PROPS["C13"] = dict(
-    modules=["Proofs.C13", "Proofs.C13Json", "Proofs.C13Object", "Proofs.C13Valid"],
+    modules=["Proofs.C13", "Proofs.C13Json", "Proofs.C13Object", "Proofs.C13Valid", "Proofs.C13Agree"],
     theorems=["Goflow.C13.varint_roundtrip", "Goflow.C13.frame_split", "Goflow.C13.stream_of_messages",
               "Goflow.C13.jsonQuoteBody_closed", "Goflow.C13.jsonQuote_valid", "Goflow.C13.utf8_plain",
               "Goflow.C13.number_decimal", "Goflow.C13.valOK_array", "Goflow.C13.members_ok", "Goflow.C13.object_ok",
               "Goflow.C13.render_scalar", "Goflow.C13.item_shape", "Goflow.C13.formatJSON_valid",
               "Goflow.C13.shapeOK_default", "Goflow.C13.default_valid", "Goflow.C13.mapUnknown_inv", "Goflow.C13.valueOf_scalars",
-              "Goflow.C13.formatJSON_valid_sharp"],
+              "Goflow.C13.formatJSON_valid_sharp", "Goflow.C13.forms_agree", "Goflow.C13.same_item_count"],
     generators=[dict(name="C13", quick=40, thorough=1500)],
     harness=["impl"],
 )
